@@ -209,11 +209,12 @@ class CorpusShufflingTool:
                 cut = numpy.random.uniform(to_split.segment.start + security, to_split.segment.end)
 
 
-                try:
-                    continuum.add(annotator, Segment(cut, to_split.segment.end), to_split.annotation)
-                    continuum.add(annotator, Segment(to_split.segment.start, cut), to_split.annotation)
-                except ValueError:
-                    continuum.add(annotator, to_split.segment, to_split.annotation)
+                pieces = [Segment(cut, to_split.segment.end), Segment(to_split.segment.start, cut)]
+                if all(piece.duration > 0.0 for piece in pieces):
+                    for piece in pieces:
+                        continuum.add(annotator, piece, to_split.annotation)
+                else:
+                    # One of the pieces would be shorter than the segment precision : the unit is left unsplit.
                     continuum.add(annotator, to_split.segment, to_split.annotation)
 
 
